@@ -11,7 +11,7 @@ pub fn plan() -> Plan {
         meta: Meta {
             property: "C15",
             level: "exploration",
-            rule: "model differential after EVERY step: records_count, records_count_detailed (counts per blob in order, ids of closed blobs), records_count_in_active_blob, blobs_count, next_blob_id, corrupted_blobs_count against the model (records physically appended per blob incl. markers, blobs that exist); disk_used against the directory listing: exact equality at quiescent points (right after free_excess_resources + worker barrier when the active blob has no index file), otherwise bounded by [sum of blob files, sum of blob+index files]. Histories: puts/deletes (incl. deletes into closed blobs), manual close/restore/create, background variants, force updates, dumps, restarts with index removal, plus quarantine scenarios (a blob cut inside a record header with its index removed => quarantined; cut exactly at a record boundary => regenerated shorter; counters re-checked after two restarts; see observed.quarantine_scenarios_*). Non-trivial = history with >=1 lifecycle operation that ran >=3 steps.",
+            rule: "model differential after EVERY step: records_count, records_count_detailed (counts per blob in order, ids of closed blobs), records_count_in_active_blob, blobs_count, next_blob_id, corrupted_blobs_count against the model (records physically appended per blob incl. markers, blobs that exist); disk_used against the directory listing: exact equality at quiescent points (right after free_excess_resources + worker barrier when the active blob has no index file), otherwise bounded by [sum of blob files, sum of blob+index files]. Histories: puts/deletes (incl. deletes into closed blobs), manual close/restore/create, background variants, force updates, dumps, restarts with index removal, plus quarantine scenarios (a blob cut inside a record header with its index removed => quarantined, or with ignore_corrupted left in place: not counted, id still taken, bytes not 'used'; cut exactly at a record boundary => regenerated shorter; counters re-checked after two restarts; see observed.quarantine_scenarios_*). Non-trivial = history with >=1 lifecycle operation that ran >=3 steps.",
             assumptions: vec!["verdict holds for the executions produced by this seed only"],
         },
         shards: 16,
@@ -67,8 +67,20 @@ async fn quarantine_scenario(d: &mut crate::drive::Driver<8>, ops: &[crate::ops:
         let cut = r.pos + 1 + rng.below(r.header_len - 1);
         std::fs::write(&path, &bytes[..cut as usize]).unwrap();
         let _ = std::fs::remove_file(path.with_extension("index"));
-        d.model.quarantine(victim);
-        kind = "quarantined";
+        if d.cfg.ignore_corrupted {
+            // left in place and skipped: not a blob of the storage any more, not counted as corrupted either,
+            // but its id stays taken (next_blob_id) and its bytes are not "disk used"
+            d.model.blobs.remove(&victim);
+            d.model.closed.retain(|c| *c != victim);
+            if d.model.active == Some(victim) {
+                d.model.active = None;
+            }
+            d.ignored_ids.insert(victim);
+            kind = "ignored_in_place";
+        } else {
+            d.model.quarantine(victim);
+            kind = "quarantined";
+        }
     } else {
         // exactly at a record boundary: a shorter, well-formed blob; its index no longer matches and is regenerated
         if bp.records.len() < 2 {
@@ -120,6 +132,7 @@ pub fn shard(ctx: &Ctx) -> Shard {
         let mut cfg = super::common::random_cfg(&mut rng, p.n_keys, p.n_meta, Some(true));
         cfg.keylen = 8;
         cfg.validate_data = rng.chance(1, 2);
+        cfg.ignore_corrupted = rng.chance(1, 3);
         let mut p2 = p.clone();
         p2.w_restart = 0;
         p2.w_bg = 0;
